@@ -39,19 +39,25 @@ def maxOver (f : Nat × Nat → Rat) : List (Nat × Nat) → Option Rat
     | none => some (f p)
     | some m => some (if f p ≥ m then f p else m)
 
+/-- start, ratio and upper bound of the ladder of momentum `laux` -/
+def ladderParams (Z : Nat) (amin amaxPrim amaxEff : List Rat) (laux : Nat) : Rat × Rat × Rat :=
+  let lmax := amin.length - 1
+  let lval := lvalAux Z
+  let cs := couples lmax laux
+  let aminaux := (minOver (fun p => getR amin p.1 + getR amin p.2) cs).getD 0
+  let amaxP := (maxOver (fun p => getR amaxPrim p.1 + getR amaxPrim p.2) cs).getD 0
+  let amaxE := (maxOver (fun p => getR amaxEff p.1 + getR amaxEff p.2) cs).getD 0
+  let amaxaux := if laux ≤ 2 * lval then (let a := getR flaux laux * amaxE; if a ≤ amaxP then a else amaxP) else amaxE
+  let b := if laux ≤ 2 * lval then bSmall else getR blauxBig (min laux (blauxBig.length - 1))
+  (aminaux, b, amaxaux)
+
 /-- the ladders of one element: per laux the list of exponents -/
 def autoauxPlan (Z : Nat) (amin amaxPrim amaxEff : List Rat) (fuel : Nat) : List (Nat × List Rat) :=
   let lmax := amin.length - 1
-  let lval := lvalAux Z
-  let lmaxAux := lmaxAuxOf lval (lincAux Z) lmax
+  let lmaxAux := lmaxAuxOf (lvalAux Z) (lincAux Z) lmax
   (List.range (lmaxAux + 1)).map fun laux =>
-    let cs := couples lmax laux
-    let aminaux := (minOver (fun p => getR amin p.1 + getR amin p.2) cs).getD 0
-    let amaxP := (maxOver (fun p => getR amaxPrim p.1 + getR amaxPrim p.2) cs).getD 0
-    let amaxE := (maxOver (fun p => getR amaxEff p.1 + getR amaxEff p.2) cs).getD 0
-    let amaxaux := if laux ≤ 2 * lval then (let a := getR flaux laux * amaxE; if a ≤ amaxP then a else amaxP) else amaxE
-    let b := if laux ≤ 2 * lval then bSmall else getR blauxBig (min laux (blauxBig.length - 1))
-    (laux, ladder fuel aminaux b amaxaux)
+    let p := ladderParams Z amin amaxPrim amaxEff laux
+    (laux, ladder fuel p.1 p.2.1 p.2.2)
 
 /-! AutoABS: grouping of the doubled exponents by the ratio `fsam` -/
 
